@@ -80,9 +80,19 @@ def run(chk):
     namep = gtc.call_params()[0]
     SPL = "%s.split('_')" % namep
     rets = [pat.inline_locals(r.value, gtc.node) for r in own_nodes(gtc.node) if isinstance(r, ast.Return) and r.value is not None]
-    texts = {norm(r) for r in rets}
-    want = "(int(%s[2]), int(%s[3]) if len(%s) == 4 else None)" % (SPL, SPL, SPL)
-    ok = want in texts and texts <= {want, '(None, None)'}
+    # a variable chosen by `if c: v = A else: v = B` stands for `A if c else B`
+    choices = {tgt: '%s if %s else %s' % (norm(pat.inline_locals(a_, gtc.node)), norm(pat.inline_locals(t_, gtc.node)),
+                                          norm(pat.inline_locals(b_, gtc.node)))
+               for t_, tgt, a_, b_ in pat.choice_assignments(gtc.node)}
+    texts = set()
+    for r in rets:
+        if isinstance(r, ast.Tuple):
+            texts.add('(%s)' % ', '.join(choices.get(norm(e), norm(e)) for e in r.elts))
+        else:
+            texts.add(norm(r))
+    want = {"(int(%s[2]), int(%s[3]) if len(%s) == 4 else None)" % (SPL, SPL, SPL),
+            "(int(%s[2]), None if len(%s) != 4 else int(%s[3]))" % (SPL, SPL, SPL)}
+    ok = bool(want & texts) and texts <= want | {'(None, None)'}
     chk.ob('C14-P', 'the path is split into <seg>_<i>, j and k', ok, 'returns %s' % sorted(texts)[:3], gtc.loc, key='C14-P|split')
     folded = any(isinstance(n, ast.Assign) and norm(n) == '%s = %s.upper()' % (namep, namep) for n in own_nodes(gtc.node))
     pref = "f'{%s[0]}_{%s[1]}'" % (SPL, SPL)
@@ -145,16 +155,9 @@ def run(chk):
     vals = [n.value for n in own_nodes(ei.node) if isinstance(n, ast.Assign) and any(norm(t) == 'self.name' for t in n.targets)]
 
     def folded_or_none(v):
-        # name.upper(), or a conditional choice between that and None / the (None) name itself
-        if norm(v) == '%s.upper()' % namep:
-            return True
-        if isinstance(v, ast.IfExp):
-            alts = [v.body, v.orelse]
-            return any(norm(a_) == '%s.upper()' % namep for a_ in alts) and all(
-                norm(a_) in ('%s.upper()' % namep, 'None', namep) for a_ in alts) and \
-                (namep not in [norm(a_) for a_ in alts] or 'None' in norm(v.test))
-        return False
-    ok = bool(vals) and all(folded_or_none(v) for v in vals)
+        # name.upper(), or None (the branch of `if name is None` of the canonical conditional assignment)
+        return norm(v) in ('%s.upper()' % namep, 'None')
+    ok = bool(vals) and all(folded_or_none(v) for v in vals) and any(norm(v) != 'None' for v in vals)
     chk.ob('C14-F', 'elements store their name upper-cased', ok, '', ei.loc, key='C14-F|element-name')
 
     # ---- K: writer and readers of the by-name / by-long-name maps transform their keys identically
